@@ -55,12 +55,15 @@ type family struct {
 
 // maxLen: sequences of length 1..maxLen are enumerated. Quick tier: 4 for the
 // Graph and Chain families, 3 for the (more expensive) Workflow families;
-// thorough tier: 5 everywhere.
+// thorough tier: 5, except the two Workflow families that start from a prelude
+// (4 calls after the prelude).
 func (f *family) maxLen(thorough bool) int {
-	if thorough {
+	switch {
+	case thorough && f.fe == "workflow" && len(f.prelude) > 0:
+		return 4
+	case thorough:
 		return 5
-	}
-	if f.fe == "workflow" {
+	case f.fe == "workflow":
 		return 3
 	}
 	return 4
